@@ -7,6 +7,7 @@ import (
 	"crypto/ecdsa"
 	"crypto/elliptic"
 	"crypto/rand"
+	"crypto/rsa"
 	"crypto/tls"
 	"crypto/x509"
 	"crypto/x509/pkix"
@@ -76,7 +77,13 @@ type Leaf struct {
 	SelfSigned bool
 	Client     bool
 	NoEKU      bool // no extended-key-usage extension at all (good for any purpose)
+	RSA        bool // an RSA key (2048 bits, shared by all such leaves of the process) instead of a fresh P-256 key
 }
+
+var (
+	rsaOnce sync.Once
+	rsaKey  *rsa.PrivateKey
+)
 
 // Issue makes a leaf certificate signed by ca (or self-signed).
 func (ca *CA) Issue(l Leaf) tls.Certificate {
@@ -98,6 +105,15 @@ func (ca *CA) Issue(l Leaf) tls.Certificate {
 	parent, pk := ca.Cert, ca.Key
 	if l.SelfSigned {
 		parent, pk = t, k
+	}
+	if l.RSA && !l.SelfSigned {
+		rsaOnce.Do(func() { rsaKey, _ = rsa.GenerateKey(rand.Reader, 2048) })
+		der, err := x509.CreateCertificate(rand.Reader, t, parent, &rsaKey.PublicKey, pk)
+		if err != nil {
+			panic(err)
+		}
+		leaf, _ := x509.ParseCertificate(der)
+		return tls.Certificate{Certificate: [][]byte{der}, PrivateKey: rsaKey, Leaf: leaf}
 	}
 	der, err := x509.CreateCertificate(rand.Reader, t, parent, &k.PublicKey, pk)
 	if err != nil {
